@@ -25,7 +25,7 @@ theorem steps_le (step : Nat → GState → List NodeD → StepOut) (g : GraphD)
       cases step k (ready g act s).2 (ready g act s).1 with
       | ok ns l => have := ih (k + 1) ns (log ++ l); simp only []; omega
       | fail e ps l => simp only [LoopOut.steps]; omega
-      | pause p l => simp only [LoopOut.steps]; omega
+      | pause p ps l => simp only [LoopOut.steps]; omega
 
 /-- (1') `run()` performs at most `max_iterations` supersteps, whatever the graph, runner and node functions -/
 theorem runGraph_steps_le (nested : Nested) (sem : Sem) (runner : Runner) (gi : Nat) (g : GraphD)
@@ -52,7 +52,7 @@ theorem loop_total_step (step : Nat → GState → List NodeD → StepOut) (g : 
   cases h with
   | quiescent s0 s' lg n h1 _ _ => exact .inl ⟨s0, s', lg, n, rfl, h1⟩
   | stepFail s0 s1 rs k' e ps l lg _ _ h3 _ _ => obtain ⟨ns, l', h⟩ := hok k' s1 rs; rw [h] at h3; cases h3
-  | stepPause s0 s1 rs k' p l lg _ _ h3 _ _ => obtain ⟨ns, l', h⟩ := hok k' s1 rs; rw [h] at h3; cases h3
+  | stepPause s0 s1 rs k' p ps l lg _ _ h3 _ _ => obtain ⟨ns, l', h⟩ := hok k' s1 rs; rw [h] at h3; cases h3
   | limit s0 s' rs lg n h1 h2 h3 => subst h3; exact .inr ⟨s0, rs, s', lg, rfl, h1, h2⟩
 
 /-- (3) a run whose loop reports the limit: `error_handling="continue"` gives a FAILED result carrying
